@@ -163,7 +163,7 @@ def run_C13(tier, seed):
     q = Q(tier)
     res = [stages.transcript_stage("C13", tier, omits=(), extra_negs=[("rng_not_rebuilt", stages.transcript_cfg(rebuild=False), "SeesAll")])]
     # every degree, seeded and unseeded, several sizes: nonces read off the proof points, provenance, distinctness, cross-run freshness
-    sc, _ = stages.pick_scenarios("hedge", tier, seed, lambda s: s["sc"]["members"][0]["rng"] == "chacha" and s["sc"]["members"][1]["rvar"] == 0, 8 if q else 80, prop="C13")
+    sc, _ = stages.pick_scenarios("hedge", tier, seed, lambda s: s["sc"]["members"][0]["rng"] == "chacha" and s["sc"]["members"][1]["rvar"] == 0 and not s["sc"]["samecommit"], 8 if q else 80, prop="C13")
     # the same inputs proved twice with different external RNG streams (seeded and unseeded): all such pairs
     rv, _ = stages.pick_scenarios("hedge", tier, seed, lambda s: s["sc"]["members"][0]["rng"] == "chacha" and s["sc"]["members"][1]["rvar"] == 1, 1000, prop="C13")
     sc = rv + sc
@@ -183,7 +183,7 @@ def run_C14(tier, seed):
         a, b = s["sc"]["members"]
         diff = [k for k in ("label", "proms", "vals", "seed", "rvar") if a[k] != b[k]]
         return (diff[0] if diff else "identical", a["seed"] != 0, a["rng"], a["m"])
-    allh, _ = stages.pick_scenarios("hedge", tier, seed, lambda s: s["sc"]["members"][0]["rng"] != "chacha", 100000, prop="C14")
+    allh, _ = stages.pick_scenarios("hedge", tier, seed, lambda s: s["sc"]["members"][0]["rng"] != "chacha" and not s["sc"]["samecommit"], 100000, prop="C14")
     import random as _r
     rng_ = _r.Random(seed)
     strata = {}
